@@ -2698,6 +2698,10 @@ func unpackOPTResource(msg []byte, off int, length uint16) (OPTResource, error) 
 		if err != nil {
 			return OPTResource{}, &nestedError{"Data", err}
 		}
+		// Check that the option does not run past the end of the resource.
+		if off+int(l) > oldOff+int(length) {
+			return OPTResource{}, &nestedError{"Data", errCalcLen}
+		}
 		o.Data = make([]byte, l)
 		if copy(o.Data, msg[off:]) != int(l) {
 			return OPTResource{}, &nestedError{"Data", errCalcLen}
